@@ -5,6 +5,7 @@ import XlVerif.Spec.C06
   `C06 eval <fuel> <cells> <ranges> <names> <addr>` →
      `impl=<result>  trace=<number of formula evaluations started>  strict=<0|1>  cyc=<0|1>
       n=<formulaCount>  cbound=<cycle message bound>  fbound=<failure message bound>`
+  `C06 hist <fuel> <cells> <ranges> <names> <addr,addr,…>` → the outcomes of a history on ONE evaluator.
   `impl` is the evaluator model (`Model.Evaluator.evaluate` under `c06Sem`); `cyc` is the Spec oracle
   (`Spec.C06.cyclicFrom` on the static dependency function `Model.C06.deps`), the bounds are those of `Props.C06.message_linear`.
 -/
@@ -12,18 +13,23 @@ namespace XlVerif.Drv.C06
 open XlVerif XlVerif.Model.Evaluator XlVerif.Drv.EvalWire XlVerif.Model.C06
 
 /-- `stdSem` plus two functions the harness registers in the evaluator's namespace:
-    20 = `BOOMRT()` raises `RuntimeError('boom')` (re-raised unchanged: message length 4),
+    20 = `BOOMRT()` raises `RuntimeError('boom')` (re-raised unchanged: message length 4), 22–25 RuntimeError
+    subclasses (NotImplementedError, a custom subclass, the VLOOKUP approximate-match form, RecursionError),
     21 = `BOOMVE()` raises `ValueError('boom')` (wrapped once: `repr` length 18) -/
 def c06Sem : Sem where
   app := fun f args =>
     match f with
     | 20 => .raiseRuntime 4
     | 21 => .raiseOther 18
+    | 22 => .raiseRuntime 4        -- `BOOMNI()` raises NotImplementedError('boom'): a RuntimeError SUBCLASS
+    | 23 => .raiseRuntime 4        -- `BOOMSUB()` raises a custom subclass of RuntimeError
+    | 24 => .raiseRuntime 42       -- `VLOOKUP(…, TRUE)`: NotImplementedError('Excact match only supported at the moment.')
+    | 25 => .raiseRuntime 32       -- `BOOMREC()` raises RecursionError('maximum recursion depth exceeded')
     | _ => stdSem.app f args
   truth := stdSem.truth
 
 /-- longest `repr` the semantics can raise (for the failure bound) -/
-def reprBound : Nat := 20
+def reprBound : Nat := 42
 
 def handle (fields : List String) : String :=
   match fields with
@@ -41,6 +47,13 @@ def handle (fields : List String) : String :=
            ("n", toString N),
            ("cbound", toString (Spec.C06.cycleMsgBound N L)),
            ("fbound", toString (Spec.C06.failMsgBound L M reprBound))]
+     | _, _, _ => "error=bad-args")
+  | ["hist", fuel, cells, ranges, names, addrs] =>
+    -- several evaluations on ONE evaluator: `impl=<r1>;<r2>;…  ev=<length of _evaluating afterwards>`
+    (match fuel.toNat?, modelOfWire? cells ranges names, (addrs.splitOn ",").mapM parseText? with
+     | some n, some m, some as =>
+       let (e, rs) := runHist c06Sem n { st := m } as
+       kv [("impl", ";".intercalate (rs.map resW)), ("ev", toString e.evaluating.length)]
      | _, _, _ => "error=bad-args")
   | _ => "error=bad-request"
 end XlVerif.Drv.C06
